@@ -362,6 +362,82 @@ def bounded_part(C, _dget, last_saved, ENTRY_FIELDS):
         return VBool(z3.And(*out) if out else z3.BoolVal(True))
     C.helpers["reloaded"] = reloaded
 
+    # ---- variables declared in the machine config (machine_vars: section) at boot
+    C.cls("ConfigValidatorI", fields={})
+    C.ext("ConfigValidatorI.validate_config", model=lambda I, env, a, k: a[1],
+          trusted_reason="ConfigValidator.validate_config (C12): returns the validated section")
+    C.globals["copy"] = VFn("module", name="copy")
+    C.globals["copy.deepcopy"] = VFn("model", model=lambda I, a, k: a[0])
+    C.globals["Util"] = VCls("Util")
+
+    def convert(I, a, k):
+        v = I.fresh(Scalar, I.fresh_name("initial_value"))
+        I.__dict__.setdefault("c15_initial", []).append(v)
+        return v
+    C.globals["Util.convert_to_type"] = VFn("model", model=convert)
+
+    def declared(I, name):
+        """one variable declared in the config; its name may or may not be a key of the store"""
+        this = I.frames[0].env["self"].ref
+        store = I.container(I.force(I.read_field(this, "machine_vars")).ref)
+        keys = [k for k, _ in store.entries]
+        which = I.ctx.fork(len(keys) + 1)
+        key = keys[which] if which < len(keys) else VStr(z3.String(name + ".declared_name"))
+        if which == len(keys):
+            for k in keys:
+                I.ctx.assume(key.t != k.t)
+        I.__dict__["c15_declared"] = (key, which < len(keys))
+        el = I.new_dict([("initial_value", I.fresh(Scalar, name + ".initial_value")), ("value_type", VStr("int")),
+                         ("persist", I.fresh(Bool, name + ".persist"))], name + "[decl]")
+        return I.new_dict([(key, el)], name)
+    MACHINE_DECL = ObjS("MachineController", config=Rec(mpf=Rec(save_machine_vars_to_disk=Bool),
+                                                        machine_vars=Init(declared)),
+                        clock=ObjS("Clock"), events=ObjS("EventManager"), monitors=Rec(machine_vars=Seq(Fn)),
+                        config_validator=ObjS("ConfigValidatorI"))
+
+    def declared_ok(I):
+        this = I.frames[0].env["self"].ref
+        key, was_there = I.__dict__["c15_declared"]
+        store = I.container(I.force(I.read_field(this, "machine_vars")).ref)
+        ent = store.get(key)
+        if ent is None:
+            return VBool(False)
+        cfg = I.container(I.force(I.read_field(I.force(I.read_field(I.force(I.read_field(this, "machine")).ref,
+                                                                    "config")).ref, "machine_vars")).ref).get(key)
+        persist_cfg = _dget(I, cfg, "persist")
+        cs = [I.eq(_dget(I, ent, "persist"), persist_cfg)]
+        if was_there:
+            old_store = I.container(I.force(I.read_field(this, "machine_vars", heap=I.old_heap)).ref, heap=I.old_heap)
+            old_ent = old_store.get(key)
+            old_val = I.container(I.force(old_ent).ref, heap=I.old_heap).get("value")
+            cs.append(same_scalar(I, _dget(I, ent, "value"), old_val))
+        else:
+            inits = I.__dict__.get("c15_initial", [])
+            if len(inits) != 1:
+                return VBool(False)
+            cs.append(same_scalar(I, _dget(I, ent, "value"), inits[0]))
+        return VBool(z3.And(cs))
+
+    def same_scalar(I, a, b):
+        """equal value AND equal type tag (0, '', False and None are different values)"""
+        aa = a.alts if isinstance(a, VUnion) else ((z3.BoolVal(True), I.force(a)),)
+        bb = b.alts if isinstance(b, VUnion) else ((z3.BoolVal(True), I.force(b)),)
+        cs = []
+        for g1, x in aa:
+            for g2, y in bb:
+                if x.tag == y.tag:
+                    cs.append(z3.And(g1, g2, I.eq(x, y) if x.tag != "none" else z3.BoolVal(True)))
+        return z3.Or(cs + [z3.BoolVal(False)])
+    C.helpers["declared_variable_ok"] = declared_ok
+    C.trace_helpers |= {"declared_variable_ok"}
+    C.fn("MachineVariables._load_initial_machine_vars#decl", file=MV, qualname="MachineVariables._load_initial_machine_vars",
+         params=dict(self=ObjS("MachineVariables", machine=MACHINE_DECL)),
+         loops={0: LoopSpec(invariant=[], unroll=True)},
+         ensures=[("P4: a variable declared in the machine config keeps the value that was reloaded from disk - WHATEVER it "
+                   "is (0, '', False included); only a variable that was not reloaded gets the configured initial value; "
+                   "its persist flag is the configured one", "declared_variable_ok()")],
+         modifies=["self.machine_vars.**"], raises={}, skip_frame=True, bounded=B, inline_calls=False)
+
     def expiry_kept(I):
         """a restored variable keeps the expiry time it was stored with: the next write puts the same expiry on disk
         again, so a LATER boot after that time still drops the variable ("unless their expiry time has passed")"""
@@ -658,6 +734,22 @@ def build():
          # self.data and the stop flag are changed by the environment only (rely), listed because the loop havocs them
          modifies=["ghost.fs", "ghost.faults", "ghost.stopped", "FileManager.is_busy", "FileManager.initialized",
                    "self._dirty.flag", "self.data", "self.machine.thread_stopper.flag"])
+    # ---- boot: loading never writes
+    C.ext("DataManager._make_sure_path_exists", model=common.noop,
+          trusted_reason="os.makedirs of the data directory (creates directories only)")
+    C.ext("DataManager._load", model=lambda I, env, a, k: (emit(I, "load"), NONE)[1],
+          trusted_reason="DataManager._load: FileManager.load of the data file (reads only; a torn or missing file yields "
+                         "empty data)")
+    C.globals["os.path.isfile"] = VFn("model", model=lambda I, a, k: VBool(z3.Bool(I.fresh_name("isfile"))))
+    C.globals["os.path.join"] = VFn("model", model=lambda I, a, k: VStr(z3.Concat(
+        I.force(a[0]).t, z3.StringVal("/"), I.force(a[1]).t)))
+    C.helpers["n_loads"] = lambda I: VInt(len(events_named(I, "load")))
+    C.trace_helpers |= {"n_loads"}
+    C.fn("DataManager._setup_file",
+         ensures=[("D0: booting never WRITES the data file: whatever is lying around in the data directory (a temp file "
+                   "left by a crash in the middle of a save may be torn), the complete file on disk is what gets loaded "
+                   "and stays as it is", "n_fs_steps() == 0 and n_loads() == 1")],
+         modifies=[], raises={})
     machine_vars_part(C, 'slice')
     C.assume("A-THREAD the writer thread is checked sequentially under a rely (other threads: save_all, busy flag, "
              "stop flag; they never clear the dirty flag nor write this manager's file); statement-level "
@@ -668,10 +760,60 @@ def build():
     return C
 
 
+SETC = "mpf/core/settings_controller.py"
+
+
+def settings_set():
+    """operator settings are machine variables: changing a setting always marks its variable persistent before writing
+    it - also when the variable already existed as a plain (non-persistent) one - so the change survives a reboot"""
+    C = ContractSet("C15s", "a changed setting is persisted")
+    C.strings = False
+    C.cls("MpfController", fields={})
+    C.cls("VarsI", fields={})
+    C.ext("VarsI.configure_machine_var",
+          model=lambda I, env, a, k: (emit(I, "configure", name=k.get("name", a[0] if a else NONE),
+                                           persist=k.get("persist", a[1] if len(a) > 1 else NONE)), NONE)[1],
+          trusted_reason="MachineVariables.configure_machine_var (main set): sets the persist flag")
+    C.ext("VarsI.set_machine_var",
+          model=lambda I, env, a, k: (emit(I, "set", name=k.get("name", a[0] if a else NONE),
+                                           value=k.get("value", a[1] if len(a) > 1 else NONE)), NONE)[1],
+          trusted_reason="MachineVariables.set_machine_var (main set, P1): hands a persisted variable to the data manager")
+    C.ext("VarsI.is_machine_var", model=lambda I, env, a, k: VBool(z3.Bool(I.fresh_name("is_machine_var"))),
+          trusted_reason="MachineVariables.is_machine_var")
+    C.ext("VarsI.get_machine_var", model=lambda I, env, a, k: VOpaque("Any", z3.Const(I.fresh_name("mv"), usort("Any"))),
+          trusted_reason="MachineVariables.get_machine_var")
+    C.cls("SettingEntry", fields=dict(machine_var=Str, values=Init(lambda I, n: I.new_dict(((1, VStr("a")), (2, VStr("b"))), n))))
+
+    def settings(I, name):
+        return I.new_dict((("known", I.fresh(ObjS("SettingEntry"), name + "[known]")),), name)
+    C.cls("SettingsController", file=SETC, bases=["MpfController"], fields=dict(
+        _settings=Init(settings), machine=ObjS("MachineController", variables=ObjS("VarsI"))))
+
+    def persisted_then_set(I, value):
+        tr = [e for e in I.cur_trace() if e.name in ("configure", "set")]
+        if [e.name for e in tr] != ["configure", "set"]:
+            return VBool(False)
+        this = I.frames[0].env["self"].ref
+        ent = I.container(I.force(I.read_field(this, "_settings")).ref).get("known")
+        mv = I.read_field(I.force(ent).ref, "machine_var")
+        return VBool(z3.And(I.eq(tr[0].args["name"], mv), I.truth(tr[0].args["persist"]), I.eq(tr[1].args["name"], mv),
+                            I.eq(tr[1].args["value"], value)))
+    C.helpers["persisted_then_set"] = persisted_then_set
+    C.trace_helpers = {"persisted_then_set"}
+    C.fn("SettingsController.set_setting_value",
+         params=dict(setting_name=Union(Const("known"), Const("unknown_setting")), value=Union(Const(1), Const(2), Const(3))),
+         ensures=[("ST1: a valid change of a setting ALWAYS marks its machine variable persistent and then writes the new "
+                   "value - whether or not the variable existed before - so the data manager gets it and it survives a "
+                   "reboot", "persisted_then_set(value)")],
+         modifies=[], raises={"AssertionError": "setting_name != 'known' or value == 3"})
+    return C
+
+
 def build_extra():
     """the whole-store machine-variable functions on small concrete stores (bounded, never counted as proved)"""
     C = ContractSet("C15", "machine variables: whole-store functions (bounded)")
     C.strings = True
     machine_vars_part(C, "small")
-    C.only_verify = ["MachineVariables._write_machine_vars_to_disk", "MachineVariables.load_machine_vars"]
-    return [C]
+    C.only_verify = ["MachineVariables._write_machine_vars_to_disk", "MachineVariables.load_machine_vars",
+                     "MachineVariables._load_initial_machine_vars#decl"]
+    return [C, settings_set()]
